@@ -55,6 +55,7 @@ class Contract:
         defines=(),
         exit_asserts=(),
         stop_at=None,
+        start_at=None,
     ):
         self.target = target
         self.params = dict(params or {})
@@ -86,6 +87,8 @@ class Contract:
         self.exposes = dict(exposes or {})  # callee local -> type; visible in ensures as _x_<name> (existential for callers)
         self.defines = list(defines)  # naming clauses (result == spec_fn(...)): assumed by callers, not checked
         self.exit_asserts = list(exit_asserts)  # cuts: proved from the path condition at exit, then used for the ensures
+        self.start_at = start_at  # region contract: execution starts at the first top-level statement starting with this text;
+        # parameters and the locals declared in `locals=` are arbitrary values of their types there
         self.stop_at = stop_at  # region contract: the function is cut before the first statement starting with this text
         self.bounded = bounded  # reason string: contract kept for run-time monitors only (not proved)
         self.out_params = dict(out_params or {})  # param name -> spec of its value at exit (in-place mutation)
